@@ -556,9 +556,15 @@ class IrGenerator:
 
             ctx = ir.StatemachineContext.enter(inp._name)
 
-            statemachine_end = self.apply(inp._body, open_blocks=[ctx.first_block()])
+            try:
+                statemachine_end = self.apply(
+                    inp._body, open_blocks=[ctx.first_block()]
+                )
 
-            parent_block.append(ir.StatemachineContext.finish(statemachine_end))
+                parent_block.append(ir.StatemachineContext.finish(statemachine_end))
+            finally:
+                # do not leave a stale context behind when the conversion fails
+                ir.StatemachineContext.reset()
 
             return open_blocks
 
